@@ -10,8 +10,8 @@ def r_varmap(rule, root=None):
     ms = list(A.find(fn["body"], "Match"))
     want = {"Var::X": "self.x", "Var::Y": "self.y", "Var::Z": "self.z"}
     for arm in ms[0]["arms"] if ms else []:
-        pt = A.unparse(arm["pat"]).replace(" ", "")
-        tt = A.unparse(arm["body"]).replace(" ", "")
+        pt = A.ftxt(arm["pat"])
+        tt = A.ftxt(arm["body"])
         if pt in want:
             if tt == want[pt]:
                 rule.ok("VarMap::get %s -> %s" % (pt, tt), file=VAR, line=arm["ln"])
@@ -24,7 +24,7 @@ def r_varmap(rule, root=None):
             else:
                 rule.bad("get|V", "VarMap::get(Var::V) returns `%s`" % tt, A.where(fn, arm))
     fn = A.find_fn(VAR, "insert", self_ty="VarMap", root=root)
-    t = A.unparse(fn["body"]).replace(" ", "")
+    t = A.ftxt(fn["body"])
     if not t.startswith("{letnext=self.len();"):
         rule.bad("insert|next", "VarMap::insert must number a new variable with the current length", A.where(fn))
     else:
@@ -32,8 +32,8 @@ def r_varmap(rule, root=None):
     ms = list(A.find(fn["body"], "Match"))
     want = {"Var::X": "self.x.get_or_insert(next)", "Var::Y": "self.y.get_or_insert(next)", "Var::Z": "self.z.get_or_insert(next)"}
     for arm in ms[0]["arms"] if ms else []:
-        pt = A.unparse(arm["pat"]).replace(" ", "")
-        tt = A.unparse(arm["body"]).replace(" ", "")
+        pt = A.ftxt(arm["pat"])
+        tt = A.ftxt(arm["body"])
         if pt in want:
             if tt == want[pt]:
                 rule.ok("VarMap::insert %s keeps an existing index" % pt, file=VAR, line=arm["ln"])
@@ -46,14 +46,14 @@ def r_varmap(rule, root=None):
             else:
                 rule.bad("insert|V", "VarMap::insert(Var::V) does `%s`" % tt, A.where(fn, arm))
     fn = A.find_fn(VAR, "len", self_ty="VarMap", root=root)
-    t = A.unparse(fn["body"]).replace(" ", "")
+    t = A.ftxt(fn["body"])
     if all(x in t for x in ("self.x.is_some()asusize", "self.y.is_some()asusize", "self.z.is_some()asusize", "self.v.len()")) and t.count("+") == 3:
         rule.ok("VarMap::len counts x, y, z and every free variable once")
     else:
         rule.bad("len", "VarMap::len must count each of x, y, z and all free variables exactly once", A.where(fn))
     # iter yields (Var::A, index of A)
     fn = A.find_fn(VAR, "iter", self_ty="VarMap", root=root)
-    t = A.unparse(fn["body"]).replace(" ", "")
+    t = A.ftxt(fn["body"])
     need = ["self.x.map(|x|(Var::X,x))", "self.y.map(|y|(Var::Y,y))", "self.z.map(|z|(Var::Z,z))", "self.v.iter().map(|(v,k)|(Var::V(*v),*k))"]
     miss = [n for n in need if n not in t]
     if not miss:
